@@ -7,8 +7,9 @@
 
   Nothing here mentions cursors, spans, restores, fuel, error kinds or panics.
   `pegEval` is the executable reading of the relation used as the oracle of the
-  correspondence run; `Props/C18.lean` proves `pegEval_sound` and
-  `peg_deterministic`, so whenever the oracle answers, its answer is *the*
+  correspondence run; `Props/C18.lean` proves `pegEval_sound`,
+  `peg_deterministic` and `pegEval_eq_peg` (on expressions whose star bodies
+  consume, `pegEval e x = some r ↔ Peg e x r`), so the oracle's answer is *the*
   outcome the relation assigns.
   Import-free apart from Base (core Lean only).
 -/
